@@ -33,6 +33,7 @@ class Spec(core.PropSpec):
         rc = st("company")
         plan["company"] = T.gen_company(rc, w) if w["configs"] and rc.random() < 0.2 else None
         plan["overlap"] = [[rc.randint(0, 12), rc.randint(1, 4)] for _ in range(rc.randint(1, 2))] if rc.random() < 0.2 else None
+        plan["ship"] = core.Streams(seed)("ship").random() < 0.2
         # a side sampler fails in the middle of one of its passes (mutually exclusive with the above: they iterate the same samplers)
         plan["side_fault"] = dict(ci=rc.randint(0, 5), p=rc.choice([0, 0, 1, 2]), k=rc.randint(0, 5)) \
             if w["configs"] and not plan["company"] and not plan["overlap"] and not plan["peek"] and not plan["reiterate"] and rc.random() < 0.25 else None
@@ -43,6 +44,8 @@ class Spec(core.PropSpec):
             yield dict(plan, company=None)
         if plan.get("overlap"):
             yield dict(plan, overlap=None)
+        if plan.get("ship"):
+            yield dict(plan, ship=False)
         if plan.get("side_fault"):
             yield dict(plan, side_fault=None)
             for f in ("p", "k"):
@@ -71,7 +74,10 @@ class Spec(core.PropSpec):
                 hist, terminated = T.run_sampler(w, via=plan["via"], cap=cap, sampler=s_obj, log=s_log)
             else:
                 hist, terminated = T.run_sampler(w, via=plan["via"], cap=cap, foreign_epoch=plan.get("foreign_epoch"),
-                                                 company=plan.get("company"), overlap=plan.get("overlap"), side_fault=plan.get("side_fault"))
+                                                 company=plan.get("company"), overlap=plan.get("overlap"), side_fault=plan.get("side_fault"),
+                                                 ship=bool(plan.get("ship")))
+                if plan.get("ship"):
+                    out.count("fault:sampler_object_copied_before_use")
                 if plan.get("company"):
                     out.count("fault:config_objects_shared_with_second_sampler")
                 if plan.get("overlap"):
